@@ -89,7 +89,7 @@ func (r *Result) Fail(key, detail string, witness any) {
 }
 // FailReplay records a finding together with a minimal case that replays it.
 func (r *Result) FailReplay(key, detail string, witness any, replay Case) {
-	if len(r.Findings) >= 20 {
+	if len(r.Findings) >= 60 {
 		return
 	}
 	r.Findings = append(r.Findings, Finding{Key: key, Detail: detail, Witness: witness, Replay: &replay})
